@@ -367,3 +367,29 @@ V('c17-header-order', 'C17', 'C17.R1',
   (LSF, "        self.send_header(\"Content-Type\", \"text/xml\")\n        self.send_header(\"Content-Length\", str(len(resp_body)))\n        self.send_header(\"CIMExport\", \"MethodResponse\")\n        self.end_headers()\n        self.wfile.write(resp_body)\n\n    @staticmethod",
         "        self.send_header(\"Content-Type\", \"text/xml\")\n        self.send_header(\"Content-Length\", str(len(resp_body)))\n        self.end_headers()\n        self.send_header(\"CIMExport\", \"MethodResponse\")\n        self.wfile.write(resp_body)\n\n    @staticmethod"),
   'sequence')
+
+# ---- C19 ------------------------------------------------------------------
+RECF = 'pywbem/_recorder.py'
+HTTPF = 'pywbem/_cim_http.py'
+V('c19-truncate-decode', 'C19', 'C19.R2',
+  (RECF, "                upayload = (_decode_lenient(payload[:self.http_maxlen]) +", "                upayload = (_ensure_unicode(payload[:self.http_maxlen]) +"), '')
+V('c19-strict-decode', 'C19', 'C19.R1',
+  (RECF, "                data = _decode_lenient(http_response.payload)", "                data = http_response.payload.decode('utf-8')"), 'UnicodeError')
+V('c19-unbound-result', 'C19', 'C19.R4',
+  (OPSF, "                self.operation_recorder_stage_result(result_tuple, exc)\n\n    def CloseEnumeration(", "                self.operation_recorder_stage_result(result, exc)\n\n    def CloseEnumeration("), 'unbound-in-finally')
+V('c19-keeps-input', 'C19', 'C19.R3',
+  (HTTPF, "                # Ignore an invalid header value\n                svr_resp_time = None", "                pass"), 'keeps-input')
+V('c19-creds-shown', 'C19', 'C19.R6',
+  (OPSF, "        if self.creds is not None:\n            # (userid, password) was specified; the password is not shown", "        if isinstance(self.creds, tuple):\n            # (userid, password) was specified; the password is not shown", 2), 'creds-shown')
+V('c19-password-to-recorder', 'C19', 'C19.R6',
+  (HTTPF, "                conn.conn_id, 11, conn.url, target, 'POST',\n                dict(cimxml_headers), req_body)", "                conn.conn_id, 11, conn.url, target, 'POST',\n                dict(req_headers), req_body)"), 'password-flow')
+V('c19-unguarded-recorder', 'C19', 'C19.R5',
+  (HTTPF, "    if conn.operation_recorders:\n        for recorder in conn.operation_recorders:\n            recorder.stage_http_response2(resp_body)", "    for recorder in conn.operation_recorders or []:\n        recorder.stage_http_response2(resp_body)"), 'unguarded')
+V('c19-stats-name', 'C19', 'C19.R4',
+  (OPSF, "        stats = self.statistics.start_timer('InvokeMethod')", "        stats = self.statistics.start_timer('Invoke')"), 'InvokeMethod')
+V('c19-exc-not-recorded', 'C19', 'C19.R4',
+  (OPSF, "        except Exception as exce:\n            exc = exce\n            raise\n        finally:\n            self._last_operation_time = stats.stop_timer(\n                self.last_request_len, self.last_reply_len,\n                self.last_server_response_time, exc)\n            if self._operation_recorders:\n                self.operation_recorder_stage_result(None, exc)\n\n    def ExportIndication",
+         "        except Exception as exce:\n            raise\n        finally:\n            self._last_operation_time = stats.stop_timer(\n                self.last_request_len, self.last_reply_len,\n                self.last_server_response_time, exc)\n            if self._operation_recorders:\n                self.operation_recorder_stage_result(None, exc)\n\n    def ExportIndication"),
+  '')
+V('c19-observer-raises', 'C19', 'C19.R1',
+  (RECF, "        self._pywbem_method = method\n        if self.enabled and self.api_detail_level is not None and \\\n                self.apilogger.isEnabledFor(logging.DEBUG):", "        self._pywbem_method = method\n        if not kwargs:\n            raise ValueError('no arguments')\n        if self.enabled and self.api_detail_level is not None and \\\n                self.apilogger.isEnabledFor(logging.DEBUG):"), 'ValueError')
